@@ -11,13 +11,14 @@ import (
 
 // Outcome of one parse on the carrier.
 type Outcome struct {
-	OK     bool
-	Events []ctypes.Ev
-	Reads  int
-	Steps  int    // iterations of parse()'s main loop
-	Panic  string // generated code panicked
-	Hang   string // proven non-termination (exact criterion met), with explanation
-	Incon  bool   // step budget exceeded without meeting an exact criterion
+	OK       bool
+	Events   []ctypes.Ev
+	Reads    int
+	Steps    int    // iterations of parse()'s main loop
+	Panic    string // generated code panicked
+	Hang     string // proven non-termination (exact criterion met), with explanation
+	HangKind string // "recover-inner-loop", "cycle", "cycle-after-recover", "pumping"
+	Incon    bool   // step budget exceeded without meeting an exact criterion
 }
 
 type abortSentinel struct{}
@@ -34,8 +35,8 @@ type Runner struct {
 	ActHook func(p ctypes.Parser, n *ctypes.Node)
 }
 
-const fastBudget = 3000    // main-loop + recover ticks before switching to diagnosis
-const diagBudget = 200000  // ticks in diagnosis mode before giving up (inconclusive)
+const fastBudget = 3000   // main-loop + recover ticks before switching to diagnosis
+const diagBudget = 200000 // ticks in diagnosis mode before giving up (inconclusive)
 
 func NewRunner(c *ctypes.Carrier) *Runner {
 	r := &Runner{C: c, Configs: map[uint64]struct{}{}, siteMain: -1}
@@ -108,8 +109,12 @@ func (r *Runner) run(toks []int, diagnose bool) (out *Outcome) {
 	lastReads := 0
 
 	innermost := -1
+	isRec := map[int]bool{}
 	if len(r.siteRec) > 0 {
 		innermost = r.siteRec[len(r.siteRec)-1]
+		for _, s := range r.siteRec {
+			isRec[s] = true
+		}
 	}
 
 	r.C.SetActHook(r.ActHook)
@@ -142,10 +147,12 @@ func (r *Runner) run(toks []int, diagnose bool) (out *Outcome) {
 		if site == innermost {
 			innerRun++
 			if r.NStates > 0 && innerRun > r.NStates+2 {
+				out.HangKind = "recover-inner-loop"
 				out.Hang = fmt.Sprintf("_recover's innermost loop ran %d consecutive iterations with %d parser states: its only state is the local `state`, a deterministic function of itself, so a value repeated (cycle)", innerRun, r.NStates)
 				panic(abortSentinel{})
 			}
-		} else {
+		} else if site == r.siteMain || isRec[site] {
+			// ticks of helper loops (_Find) do not leave the innermost loop
 			innerRun = 0
 		}
 		h := p.StackLen()
@@ -158,6 +165,11 @@ func (r *Runner) run(toks []int, diagnose bool) (out *Outcome) {
 			stackBuf = p.AppendStack(stackBuf[:0])
 			full := fmt.Sprint(stackBuf, p.La(), p.Qla(), p.LaIsErr(), lex.Pos, lex.Reads > len(toks))
 			if _, ok := seen[full]; ok {
+				out.HangKind = "cycle"
+				if p.La() == 1 && p.Qla() >= 0 {
+					// the repeated point is right after a successful _recover
+					out.HangKind = "cycle-after-recover"
+				}
 				out.Hang = "parser configuration (state stack, lookahead, queued lookahead, input position) repeated at the top of parse()'s loop without consuming input: deterministic cycle; config=" + full
 				panic(abortSentinel{})
 			}
@@ -166,6 +178,7 @@ func (r *Runner) run(toks []int, diagnose bool) (out *Outcome) {
 			if len(hist) < 5000 {
 				for i := range hist {
 					if hist[i].key == top && hist[i].height < h && minSince[i] >= hist[i].height {
+						out.HangKind = "pumping"
 						out.Hang = fmt.Sprintf("pumping: (top state, lookahead, queued lookahead, input position)=%s recurred with stack height %d > %d and the stack never dipped below %d in between: the same moves repeat forever", top, h, hist[i].height, hist[i].height)
 						panic(abortSentinel{})
 					}
